@@ -8,6 +8,10 @@ reference model, listeners on on_current / on_unit_changed appending to a log.  
 from barril.units.unit_system import UnitSystem
 from barril.units.unit_system_manager import UnitSystemManager
 
+# the histories of this check run on hand-registered databases rebuilt per history: the warm regime of the
+# thorough tier (worlds.warm_up on the shipped table) would only repeat the same exploration
+WARM_REGIME = False
+
 from .. import explorer, worlds
 from ..ref.usm import UsmModel
 from ..runner import Part
